@@ -14,7 +14,7 @@ Pairs(keys) == UNION {{<<k, t>> : t \in ToksForKey(k)} : k \in keys}
 QueryKeysQuick == {"name", "num", "flag", "kindE", "kind_e", "wrapped", "ts", "child.name", "pageSize", "tags", "parent"}
 BodyFields(r) == IF RuleInfo(r).body = "child" THEN {"name"} ELSE {"name", "num", "flag", "kind_e", "wrapped", "ts", "tags"}
 
-Init == req = [kind |-> "bind", rule |-> "Post", pv |-> <<>>, query |-> <<>>, body |-> <<>>, msgkind |-> ""] /\ ph = "rule"
+Init == req = [kind |-> "bind", rule |-> "Post", pv |-> <<>>, query |-> <<>>, body |-> <<>>, msgkind |-> "", nonconf |-> ""] /\ ph = "rule"
 
 ChooseRule ==
     /\ ph = "rule"
@@ -26,6 +26,11 @@ ChooseKind ==
     /\ ph = "kind"
     /\ \/ req' = req /\ ph' = "query"
        \/ \E k \in MsgKinds : req' = [req EXCEPT !.kind = "chain", !.msgkind = k] /\ ph' = "done"
+       \* the value of a bounded multi-segment variable does not fit its pattern: it cannot be expressed
+       \/ /\ req.rule \in {"Unary", "Get"}
+          /\ \E nc \in {"extra-aligned", "extra-other", "too-few"}, k \in {"empty", "ascii"} :
+               req' = [req EXCEPT !.kind = "chain", !.msgkind = k, !.nonconf = nc]
+          /\ ph' = "done"
 ChooseQuery ==
     /\ ph = "query"
     /\ \E n \in 0..MaxQuery : \E q \in [1..n -> Pairs(QueryKeysQuick)] :
